@@ -75,6 +75,17 @@ def step (_ : Unit) (j : Json) : Except String (Unit × Drv.Out) := do
       o := o.diff s!"idle WebSocket session (PingDuration {ping} ms): {left} goroutine(s) of the relay are left after the peer went away"
       o := o.mon "termination" "ws-goroutine-left" s!"{left} goroutine(s) of the relay outlive an idle WebSocket session that ended while a ping waited for its pong (PingDuration {ping} ms): {(out.getObjValD "sample").compress.take 400}"
     pure ((), o)
+  else if op == "c13busy" then
+    let n := numI (j.getObjValD "events")
+    o := o.tag s!"sqlite.busy-store.events.{n}"
+    if out.getObjValD "returned" != Json.bool true then
+      o := o.diff s!"SQLite handler with a busy store ({n} EVENTs, insert queue of 2): ServeNostr did not return within 3 s of the cancellation"
+      o := o.mon "termination" "busy-store-not-returned" s!"a session on the SQLite handler whose store is busy (insert queue full after {numI (out.getObjValD "handed")} EVENTs) did not end within 3 s of its context being cancelled"
+    let left := numI (out.getObjValD "leftover")
+    if left > 0 then
+      o := o.diff s!"SQLite handler with a busy store: {left} goroutine(s) left after the session and the handler ended"
+      o := o.mon "termination" "leaked-goroutine" s!"{left} goroutine(s) outlive a session on the SQLite handler whose store was busy: {(out.getObjValD "sample").compress.take 400}"
+    pure ((), o)
   else throw s!"unknown op {op}"
 
 def handler : Drv.Handler := { σ := Unit, init := (), step := step }
